@@ -1,5 +1,6 @@
 import Gsp.Model.Verify
 import Gsp.Lemmas.Smt
+import Gsp.Lemmas.HashCRWitness
 /-! C09 — revocation status validation accepts only verified non-revocation. -/
 namespace Gsp.Props.C09
 open Gsp Gsp.Smt Gsp.Verify
@@ -175,5 +176,8 @@ theorem httpStatus_ok_iff (code len : Nat) (parses : Bool) :
     httpStatus code len parses = true ↔ 200 ≤ code ∧ code < 300 ∧ len < 16384 ∧ parses = true := by
   unfold httpStatus httpLimit
   simp [and_assoc]
+
+/-- non-vacuity: the idealised-hash hypothesis used above is satisfiable (an explicit injective, never-zero function) -/
+theorem idealised_hash_exists : ∃ P : List Nat → Nat, Gsp.Smt.HashCR P := ⟨_, Gsp.Smt.hashCR_satisfiable⟩
 
 end Gsp.Props.C09
